@@ -33,6 +33,12 @@ func runC16(c *Ctx) {
 	ruleSecondsDomain(c, "R16.5")
 	ruleTickPairConsistent(c, "R16.6")
 	ruleClockSource(c, "R16.7") // tick times are readings of the injected clock taken when the tick is emitted
+	ruleServedRoundDatesItself(c, "R16.8")
+	// the gate for partials of future rounds takes "next" from NextRound: before genesis next is not current+1
+	c.ranRules["R16.9"] = true
+	if fn, inj := partialGate(c); c.Anchor("R16.9", "gate function", fn != nil) {
+		ruleGate(c, "R16.9", fn, inj, true)
+	}
 }
 
 func isGenesisLike(o Origin) bool {
@@ -544,4 +550,98 @@ func ruleTickPairConsistent(c *Ctx, rule string) {
 		}
 	}
 	c.Floor(rule, "roundInfo values built by the ticker", n, 1)
+}
+
+// R16.8: the HTTP answer for "latest" dates the beacon it serves by that beacon's own round: the time it is declared
+// stale (Expires, max-age) is the scheduled time of the served round plus one period, or a reading of the clock. It is
+// never the time of a round computed from the clock: when the backend lags, that pairs round r with the schedule of
+// another round.
+func ruleServedRoundDatesItself(c *Ctx, rule string) {
+	c.ranRules[rule] = true
+	fn := c.P.Fn("handler/http.(*DrandHandler).LatestRand")
+	if !c.Anchor(rule, "handler/http.(*DrandHandler).LatestRand", fn != nil) {
+		return
+	}
+	n := 0
+	var walk func(v ssa.Value, d int, seen map[ssa.Value]bool) string
+	walk = func(v ssa.Value, d int, seen map[ssa.Value]bool) string {
+		v = stripConv(v)
+		if v == nil || seen[v] || d > 12 {
+			return ""
+		}
+		seen[v] = true
+		switch x := v.(type) {
+		case *ssa.Phi:
+			for _, e := range x.Edges {
+				if w := walk(e, d+1, seen); w != "" {
+					return w
+				}
+			}
+		case *ssa.Extract:
+			return walk(x.Tuple, d+1, seen)
+		case *ssa.UnOp:
+			if a, ok := x.X.(*ssa.Alloc); ok && x.Op == token.MUL {
+				for _, r := range *a.Referrers() {
+					if st, ok := r.(*ssa.Store); ok && st.Addr == ssa.Value(a) {
+						if w := walk(st.Val, d+1, seen); w != "" {
+							return w
+						}
+					}
+				}
+			}
+		case *ssa.BinOp:
+			if w := walk(x.X, d+1, seen); w != "" {
+				return w
+			}
+			return walk(x.Y, d+1, seen)
+		case *ssa.Call:
+			name := calleeName(x)
+			switch {
+			case strings.HasSuffix(name, "common.NextRound"), strings.HasSuffix(name, "common.CurrentRound"):
+				return "the time of a round computed from the clock (" + strings.ReplaceAll(name, modPath+"/", "") + " at " + shortPos(c.P, x) + ")"
+			case strings.HasSuffix(name, "handler/http.dateOfRound"), strings.HasSuffix(name, "common.TimeOfRound"):
+				// the round dated must be the served one
+				for _, a := range x.Call.Args {
+					if w := walk(a, d+1, seen); w != "" {
+						return w
+					}
+				}
+				return ""
+			case name == "time.Now":
+				return ""
+			}
+			for _, a := range callArgs(x) {
+				if w := walk(a, d+1, seen); w != "" {
+					return w
+				}
+			}
+		}
+		return ""
+	}
+	for _, ci := range callsIn(fn, func(ci ssa.CallInstruction) bool { return calleeName(ci) == "(net/http.Header).Set" }) {
+		args := ci.Common().Args
+		k, ok := args[1].(*ssa.Const)
+		if !ok || k.Value == nil {
+			continue
+		}
+		key := strings.Trim(k.Value.ExactString(), "\"")
+		if key != "Expires" && key != "Cache-Control" && key != "Last-Modified" {
+			continue
+		}
+		n++
+		var vals []ssa.Value
+		vals = append(vals, args[2])
+		if cc, ok := stripConv(args[2]).(*ssa.Call); ok {
+			vals = append(vals, variadicElems(cc)...)
+		}
+		bad := ""
+		for _, v := range vals {
+			if w := walk(v, 0, map[ssa.Value]bool{}); w != "" {
+				bad = w
+			}
+		}
+		c.Ok(rule, "LatestRand sets "+key+" from the served round's own schedule", shortPos(c.P, ci), bad == "",
+			ifs(bad == "", "derived from dateOfRound(served round), the period and readings of the clock only", "derived from "+bad))
+	}
+	c.Floor(rule, "freshness headers set by LatestRand", n, 3)
 }
